@@ -9,6 +9,7 @@ pub enum LuaScopeKind {
     Normal,
     Repeat,
     LocalOrAssignStat,
+    // numeric and generic for: the loop variables are visible in the loop body only
     ForRange,
     FuncStat,
     // defined in function xxx:aaa() end
